@@ -19,5 +19,9 @@ for fn in sorted(os.listdir(os.path.dirname(os.path.abspath(__file__)))):
 b = common.coq_build(timeout=3000, keep_going=True)
 print(b.log[-3000:])
 if not b.ok:
-    print('BUILD FAILED', b.broken)
-sys.exit(0 if (b.ok and ok) else 1)
+    # a file that does not compile breaks only the checks whose dependency cone contains it: each check rebuilds its own
+    # cone and reports a broken obligation itself (proof_broken), so setup does not fail as a whole
+    print('BUILD INCOMPLETE (the checks concerned will report it):', b.broken)
+if not ok:
+    print('a tabulating translator failed during setup (the check concerned will report it)')
+sys.exit(0)
